@@ -33,6 +33,41 @@ fn weights(prop: Prop) -> Vec<(AKind, u32)> {
             (SyncBroker, 2),
             (Yield, 6),
         ],
+        // C02 (API share): calls dominate; services and proxies come and go while calls are pending.
+        Prop::C02 => vec![
+            (CreateObject, 5),
+            (DestroyObject, 2),
+            (DropObject, 1),
+            (CreateService, 9),
+            (SvcDestroy, 3),
+            (SvcDrop, 2),
+            (CreateProxy, 9),
+            (DropProxy, 3),
+            (Call, 40),
+            (SyncClient, 1),
+            (SyncBroker, 2),
+            (HandleClone, 1),
+            (HandleDrop, 1),
+            (Yield, 6),
+        ],
+        // C03 (API share): registry churn through the client library (objects and services created,
+        // destroyed, dropped and re-created), with a few calls and lookups as observers.
+        Prop::C03 => vec![
+            (CreateObject, 14),
+            (DestroyObject, 6),
+            (DropObject, 5),
+            (CreateService, 14),
+            (SvcDestroy, 5),
+            (SvcDrop, 4),
+            (CreateProxy, 6),
+            (DropProxy, 2),
+            (Call, 8),
+            (FindObject, 3),
+            (DiscCreate, 2),
+            (DiscDrain, 2),
+            (SyncBroker, 2),
+            (Yield, 6),
+        ],
         Prop::C04 => vec![
             (CreateObject, 6),
             (CreateService, 10),
